@@ -25,6 +25,9 @@ CURATED = [
     ("nested-deep", [["o", ["struct", "outer", [["i", G.INNER, None], ["k", G.U16, None]], False], None], ["q", G.U64, None]]),
     ("enum-wchar", [["e", G.E16, None], ["w", G.arr(G.WCHAR, 2), None], ["b", G.arr(G.U8, 4), None]]),
     ("padded-vs-flat", [["s", G.INNER2, None], ["q", G.U64, None]]),
+    ("flat-vs-padded", [["q", G.U64, None], ["s", G.INNER2, None]]),
+    ("anon-largest", [["tag", G.U8, None], [None, ["struct", "", [["lo", G.U32, None], ["hi", G.U32, None]], True], None]]),
+    ("anon-largest-2", [["w", G.U16, None], [None, ["struct", "", [["x", G.U8, None], ["y", G.U8, None], ["z", G.U16, None]], True], None], ["b", G.U8, None]]),
 ]
 
 
@@ -127,17 +130,17 @@ def make(case):
             t = t.lookup[name].type if name in t.lookup else t.fields[name].type
         return t
 
-    # known-finding region: bytes where a member of maximal size has padding bits
+    # known-finding region (KF-C11-dump-by-largest-member...): padding bytes of the member dumps() serialises on the
+    # unchanged tree - the first declared member of maximal size
     padded = set()
     if cfg["align"]:
-        for fname, FT, bits in T[2]:
-            ms, _ = L.size_align(FT)
-            if ms == max(L.size_align(f[1])[0] for f in T[2]):
-                _, mmask = enc.encode(FT, _zero_value(FT, L))
-                padded |= {i for i, m in enumerate(mmask) if m != 0xFF}
+        sizes = [L.size_align(f[1])[0] for f in T[2]]
+        first_largest = T[2][sizes.index(max(sizes))]
+        _, mmask = enc.encode(first_largest[1], _zero_value(first_largest[1], L))
+        padded = {i for i, m in enumerate(mmask) if m != 0xFF}
 
     def check_views(ctx, u, buf, tag):
-        ctx.inputs["padded_in_a_largest_member"] = padded
+        ctx.inputs["padded_in_first_largest_member"] = padded
         ref = H.ref_parser(ctx, cfg)
         rv, _ = ref.parse(T, buf, 0)
         ctx.check(f"{tag}: every member == parse of that member's type from the union's bytes", R.value_eq(T, u, rv))
